@@ -58,9 +58,12 @@ def run(ctx):
     for c in list(cases):
         if c["emb"] in ("fiber", "tensor1") and ctx.rng.random() < (0.2 if ctx.quick else 0.5):
             cases.append(dict(c, dflt=2))
+        elif c["emb"] in ("fiber", "tensor1") and ctx.rng.random() < (0.15 if ctx.quick else 0.4):
+            # operands with DIFFERENT leaf defaults: each side's absences and stand-ins follow its own default
+            cases.append(dict(c, dflts=[ctx.rng.choice([0, 2, 3]) for _ in c["ops"]]))
     cases += prefix_cases(ctx, 300 if ctx.quick else 4000)
     part = family.run_family(ctx, "C04", cases, "harness.exec_coiter", "CoiterTrace.tla", "CoiterTrace.cfg",
-                             op_of=lambda c, lg, st: c["op"], where_of=lambda c, lg, st: f"{c['kind']}:{c['emb']}:{''.join(c.get('fmt') or [])}" + (":dflt2" if c.get("dflt") else ""),
+                             op_of=lambda c, lg, st: c["op"], where_of=lambda c, lg, st: f"{c['kind']}:{c['emb']}:{''.join(c.get('fmt') or [])}" + (":dflt2" if c.get("dflt") else "") + (":dflts" if c.get("dflts") else ""),
                              nontrivial=lambda c, lg: any(t["e"] for t in c["ops"]))
     res = {"design": design, "states": r["stats"]["distinct"], "transitions": r["stats"]["generated"], "exhaustive": False,
            "rule": "a case is one co-iteration (operator, operands, embedding, rank formats) executed on the implementation; pairs are emitted by TLC "
